@@ -143,7 +143,12 @@ var vPlainLeaves = []vEntry{
 				verifFail("enum-infer")
 			}
 			return e
-		}, func() string { return [3]string{" a", "a", "b "}[verifChoice("enumval", 3)] }, vStrEq)
+		}, func() string {
+			if vMode == 5 {
+				return " a" // C16's histories multiply the value choices; one blank-edged name suffices there
+			}
+			return [3]string{" a", "a", "b "}[verifChoice("enumval", 3)]
+		}, vStrEq)
 	}},
 }
 
